@@ -64,6 +64,8 @@ def gen_cases(tier, seed):
     #  bytes keys fail its str prefix test - so it derives nothing; observed, not claimed, see DESIGN.md section 7)
     for i in range(6 if q else 60):
         yield "hd_root", {"salt": rng.getrandbits(40), "pp": ["", "TREZOR", "é"][i % 3]}
+    for i in range(16 if q else 250):
+        yield "cli_hd", {"seed": rand_bytes(rng, 32).hex(), "path": [rng.choice(IDX[:5]) for _ in range(rng.randrange(0, 3))], "xpub": i % 2 == 0, "dump": i % 4 < 2, "public_start": i % 5 == 0}
     for i in range(40 if q else 800):
         yield "ckd", {"k": hex(rng.randrange(1, secp.N)), "c": rand_bytes(rng, 32).hex(), "i": rng.choice([0, 1, 2, HARD - 1, rng.randrange(HARD)])}
     for i in range(10 if q else 100):
@@ -77,7 +79,7 @@ def gen_cases(tier, seed):
 
 def required(tier):
     return {"path.decided": 100, "path.composition": 60, "path.public_tail": 40, "path.hardened_from_pub_refused": 20,
-            "ckd.commute": 30, "siblings.children": 60, "networks.derivations": 25, "hd_root.decided": 5, "ser.class.zero_fingerprint_at_depth>0": 3, "siblings.class.parent_key_leading_zero": 4, "ckd.hardened_refused": 8, "ser.roundtrip": 50, "ser.form.int": 10, "reject.decided": 400,
+            "ckd.commute": 30, "siblings.children": 60, "networks.derivations": 25, "hd_root.decided": 5, "cli.hd": 12, "ser.class.zero_fingerprint_at_depth>0": 3, "siblings.class.parent_key_leading_zero": 4, "ckd.hardened_refused": 8, "ser.roundtrip": 50, "ser.form.int": 10, "reject.decided": 400,
             "vectors.invalid": 16}
 
 
@@ -124,11 +126,12 @@ def run_case(kind, params, ctx):
             ctx.violation("vector/tv1-raises", f"{type(e).__name__}: {e}")
         for s in INVALID_TV5:
             ctx.count("vectors.invalid")
-            try:
-                b32.deserialized_extended_key(s)
-            except Exception:
-                continue
-            ctx.violation("reject/bip32-tv5-accepted", f"deserialized_extended_key accepted invalid vector {s!r}")
+            for mode in (False, True):
+                try:
+                    b32.deserialized_extended_key(s, return_dict=mode)
+                except Exception:
+                    continue
+                ctx.violation("reject/bip32-tv5-accepted" + ("/return_dict" if mode else ""), f"deserialized_extended_key(return_dict={mode}) accepted invalid vector {s!r}")
         ctx.nontrivial()
         return
     if kind == "path":
@@ -242,6 +245,37 @@ def run_case(kind, params, ctx):
                 ctx.violation("derive_child/public-raises", f"{type(e).__name__}: {e}")
             else:
                 ctx.count("path.hardened_from_pub_refused")
+        return
+    if kind == "cli_hd":
+        from . import clihelp
+        import json as _json
+        seed = bytes.fromhex(params["seed"])
+        path = [p % HARD for p in params["path"]] if params["public_start"] else params["path"]
+        try:
+            ref = rb32.derive(seed, path)
+        except ValueError:
+            return
+        start = ref[0][1] if params["public_start"] else ref[0][0]
+        want = ref[-1][1] if (params["xpub"] or params["public_start"]) else ref[-1][0]
+        argv = ["hd", rb32.path_str(path, public=params["public_start"])] + (["--xpub"] if params["xpub"] else []) + (["--dump"] if params["dump"] else [])
+        r = clihelp.run(argv, start)
+        ctx.count("cli.hd")
+        ctx.nontrivial()
+        if not r["ok"] or r["out"] != want:
+            ctx.violation(f"cli/hd-wrong/{'xpub' if params['xpub'] else 'xprv'}", f"bits {' '.join(argv)} printed {r['out'][:40]!r}… (ret {r['ret']!r}), reference {want[:40]!r}…")
+            return
+        if params["dump"]:
+            try:
+                dumped = _json.loads(r["err"].decode())
+            except Exception:
+                ctx.violation("cli/hd-dump-not-json", f"{r['err'][:80]!r}")
+                return
+            pw = r58.check_decode(want)
+            exp = {"version": pw[:4].hex(), "depth": pw[4], "parent_key_fingerprint": pw[5:9].hex(), "child_no": int.from_bytes(pw[9:13], "big"), "chaincode": pw[13:45].hex(),
+                   "key": (pw[46:] if pw[45] == 0 else pw[45:]).hex()}
+            if dumped != exp:
+                bad = [k for k in exp if dumped.get(k) != exp[k]]
+                ctx.violation(f"cli/hd-dump-describes-another-key/{'+'.join(bad)}", f"bits {' '.join(argv)}: --dump says {dumped}, the key written to stdout is {exp}")
         return
     if kind == "hd_root":
         from ..ref import bip39ref as r39
@@ -405,6 +439,16 @@ def run_case(kind, params, ctx):
             return
         ctx.count("ser.roundtrip")
         ctx.nontrivial()
+        try:
+            dd2 = b32.deserialized_extended_key(exp, return_dict=True)
+            want = {"version": exp and r58.check_decode(exp)[:4].hex(), "depth": depth, "parent_key_fingerprint": fp.hex(), "child_no": child, "chaincode": c.hex(),
+                    "key": (k.to_bytes(32, "big") if params["priv"] else secp.sec1_encode(secp.pub(k), True)).hex()}
+            if dd2 != want:
+                ctx.violation("deserialize/dict-fields-wrong", f"return_dict=True gives {dd2}, expected {want}")
+        except ContractViolation:
+            raise
+        except Exception as e:
+            ctx.violation("deserialize/dict-mode-raises", f"{type(e).__name__}: {e}")
         kk = tuple(kk) if not isinstance(kk, int) else kk
         if (bytes(dd), bytes(ff), bytes(cn), bytes(cc), kk) != (bytes([depth]), fp, struct.pack(">I", child), c, key):
             ctx.violation("deserialize/fields-wrong", f"round trip of {exp!r} gives different fields")
@@ -443,13 +487,14 @@ def run_case(kind, params, ctx):
             s = r58.check_encode(payload)
             ctx.count("reject.decided")
             ctx.seen("rej", s)
-            try:
-                out = b32.deserialized_extended_key(s)
-            except ContractViolation:
-                raise
-            except Exception:
-                continue
-            ctx.violation(f"reject/accepted/{cls}", f"deserialized_extended_key({s!r}) returned {out!r:.100}")
+            for mode in (False, True):      # every mode of the API must refuse (tuple form and return_dict=True)
+                try:
+                    out = b32.deserialized_extended_key(s, return_dict=mode)
+                except ContractViolation:
+                    raise
+                except Exception:
+                    continue
+                ctx.violation(f"reject/accepted/{cls}{'/return_dict' if mode else ''}", f"deserialized_extended_key({s!r}, return_dict={mode}) returned {out!r:.100}")
         # checksum failures
         good = rb32.ser(k, c, depth, fp, child, tn)
         t = bytearray(good)
